@@ -727,8 +727,10 @@ class C07(Monitor):
                     self.flag('ok-unjustified', '%s Deferred succeeded without a %s bearing id %d in this step' % (r['kind'], want, rec['id']), st)
                 elif r['kind'] == 'subscribe':
                     exp = [(c & 0x7F, 1 if c & 0x80 else 0) for c in acks[0]['codes']]
-                    if [tuple(x) for x in (e['val'] or [])] != exp:
-                        self.flag('granted', 'granted list %s, SUBACK carried %s' % (e['val'], exp), st)
+                    val = e['val']
+                    got = [tuple(x) if isinstance(x, (list, tuple)) else x for x in val] if isinstance(val, (list, tuple)) else val
+                    if got != exp:
+                        self.flag('granted', 'granted list %r, SUBACK carried %s' % (e['val'], exp), st)
                 elif e['val'] != rec['id']:
                     self.flag('unsub-value', 'unsubscribe callback value %r, id %d' % (e['val'], rec['id']), st)
             else:
